@@ -217,3 +217,20 @@ DRV_OP(axisv) {
         return listTok(out);
     });
 }
+
+// axisrt <count> <start> => ok [i|~,…]   the axis getter's coordinates converted back with the rule Equal: coordinate k of
+// axis(count, start) is the coordinate of sample start+k
+DRV_OP(axisrt) {
+    if (a.size() != 3) throw ProtoError("axisrt arity");
+    return guarded([&]() {
+        std::vector<std::string> out;
+        switch (st.dim.dimensionType()) {
+        case nix::DimensionType::Sample: { nix::SampledDimension d = st.dim.asSampledDimension();
+            for (double v : d.axis(tokNat(a[1]), tokNat(a[2]))) out.push_back(optIdx(d.indexOf(v, nix::PositionMatch::Equal))); break; }
+        case nix::DimensionType::Range: { nix::RangeDimension d = st.dim.asRangeDimension();
+            for (double v : d.axis(tokNat(a[1]), tokNat(a[2]))) out.push_back(optIdx(d.indexOf(v, nix::PositionMatch::Equal))); break; }
+        default: throw ProtoError("axisrt on set/df");
+        }
+        return listTok(out);
+    });
+}
